@@ -288,25 +288,22 @@ impl FromStr for Pinned {
         }
         let s = &s[prefix_plus.len()..];
 
-        // Parse the `repo` URL.
-        let repo_str = s.split('?').next().ok_or(PinnedParseError::Url)?;
-        let repo = Url::from_str(repo_str).map_err(|_| PinnedParseError::Url)?;
-        let s = s
-            .get(repo_str.len() + "?".len()..)
-            .ok_or(PinnedParseError::Reference)?;
-
-        // Parse the git reference and commit hash. This can be any of either:
-        // - `branch=<branch-name>#<commit-hash>`
-        // - `tag=<tag-name>#<commit-hash>`
-        // - `rev#<commit-hash>`
-        // - `default#<commit-hash>`
-        let mut s_iter = s.split('#');
-        let reference = s_iter.next().ok_or(PinnedParseError::Reference)?;
-        let commit_hash = s_iter
-            .next()
-            .ok_or(PinnedParseError::CommitHash)?
-            .to_string();
+        // The commit hash follows the last `#`: a hash cannot contain `#`, while a URL and a
+        // branch or tag name can.
+        let (s, commit_hash) = s.rsplit_once('#').ok_or(PinnedParseError::CommitHash)?;
+        let commit_hash = commit_hash.to_string();
         validate_git_commit_hash(&commit_hash).map_err(|_| PinnedParseError::CommitHash)?;
+
+        // The git reference follows the last `?`: a git reference name cannot contain `?`,
+        // while a URL can. The reference can be any of either:
+        // - `branch=<branch-name>`
+        // - `tag=<tag-name>`
+        // - `rev`
+        // - `default-branch`
+        let (repo_str, reference) = s.rsplit_once('?').ok_or(PinnedParseError::Reference)?;
+
+        // Parse the `repo` URL.
+        let repo = Url::from_str(repo_str).map_err(|_| PinnedParseError::Url)?;
 
         const BRANCH: &str = "branch=";
         const TAG: &str = "tag=";
